@@ -8,7 +8,7 @@ PROPERTY = 'C14'
 BUDGET = {'quick': {'seconds': 900, 'xreplay_every': 3}, 'thorough': {'seconds': 3000, 'xreplay_every': 3}}
 NONTRIVIAL = {'quick': ['op.allowed', 'op.refused', 'rx.ignored', 'rx.effect']}
 
-STATES = ('idle', 'connecting', 'connected', 'idle-after-loss', 'idle-after-refused')
+STATES = ('idle', 'connecting', 'connected', 'idle-after-loss', 'idle-after-refused', 'idle-after-rejected-connect-V', 'idle-after-rejected-connect-T')
 OPS = ('connect', 'disconnect', 'publish', 'subscribe', 'unsubscribe')
 MARK = 0x5A    # topic character used only by the operation under test
 
@@ -20,7 +20,8 @@ def jitter():
 def reach(eng, profile, state, busy):
     """protocol of `profile` in `state` through real API calls and packets"""
     base = {'idle': 'idle', 'connecting': 'connecting', 'connected': 'connected',
-            'idle-after-loss': 'connected', 'idle-after-refused': 'connecting'}[state]
+            'idle-after-loss': 'connected', 'idle-after-refused': 'connecting',
+            'idle-after-rejected-connect-V': 'idle', 'idle-after-rejected-connect-T': 'idle'}[state]
     if busy:
         w, c, req = scen.busy_prefix(eng, profile, base, jitter_pool=jitter())
     else:
@@ -38,6 +39,17 @@ def reach(eng, profile, state, busy):
         w.lose(c)
         w.begin_step('notify')
         w.advance(1)
+    elif state.startswith('idle-after-rejected-connect'):
+        # a connect() whose arguments are rejected (failed Deferred, or an exception for a wrongly typed
+        # string) leaves the protocol idle: nothing was written, nothing is allowed yet
+        w.begin_step('rejected-connect')
+        n0 = len(w.events)
+        if state.endswith('V'):
+            w.api(c, 'connect', 'bad-connect', scen.client_id(eng), keepalive=eng.int('badka', 65536, 10 ** 6))
+        else:
+            w.api(c, 'connect', 'bad-connect', scen.client_id(eng), willTopic=scen.topic(eng), willMessage=b'gone')
+        eng.check(not [e for e in w.events[n0:] if e.kind == 'write'], 'rejected-connect-wrote')
+        w.events = [e for e in w.events if e.kind != 'exc']
     elif state == 'idle-after-refused':
         w.begin_step('refusing-connack')
         scen.connack(w, c, 0, eng.int('rc', 1, 255))
@@ -48,6 +60,8 @@ def allowed(profile, state, op):
     """the table of the statement"""
     pub = profile in ('publisher', 'pubsubs')
     sub = profile in ('subscriber', 'pubsubs')
+    if state.startswith('idle-after-rejected-connect'):
+        state = 'idle'
     if op == 'connect':
         return state == 'idle'
     if op == 'disconnect':
@@ -62,6 +76,8 @@ def allowed(profile, state, op):
 def belongs(profile, state, kind):
     pub = profile in ('publisher', 'pubsubs')
     sub = profile in ('subscriber', 'pubsubs')
+    if state.startswith('idle-after-rejected-connect'):
+        state = 'idle'
     if kind == 'CONNACK':
         return state == 'connecting'
     if state != 'connected':
@@ -144,7 +160,7 @@ def h_op(eng, params):
         eng.check(not new_timers, 'refused-op-timer', '%s() in %s/%s started a timer' % (op, profile, state),
                   sig='refused-op-timer:%s:%s:%s' % (op, profile, state))
         # nothing of the refused operation shows up later either
-        if state == 'idle':
+        if state == 'idle' or state.startswith('idle-after-rejected-connect'):
             w.begin_step('connect-after')
             scen.connect(w, c)
             w.begin_step('connack-after')
@@ -204,7 +220,7 @@ def shards(tier):
 META = {
     'rule': 'grid profile x state x (API operation | inbound packet kind); per cell one path per branch class of the symbolic data '
             '(QoS, identifiers possibly equal to those of pending requests, flags, return code); non-trivial = cells per outcome class (counters)',
-    'bounds': {'quick': '3 profiles x {idle, connecting, connected, idle-after-loss, idle-after-refused-CONNACK(rc 1..255 symbolic)} x {connect, disconnect, '
+    'bounds': {'quick': '3 profiles x {idle, connecting, connected, idle-after-loss, idle-after-refused-CONNACK(rc 1..255 symbolic), idle after a connect() rejected for its arguments (ValueError kind, TypeError kind)} x {connect, disconnect, '
                         'publish(QoS symbolic), subscribe(QoS symbolic), unsubscribe} with and without one pending request of every kind, and x 11 broker packet kinds '
                         'with symbolic fields against the busy pre-state; refused operations are followed by CONNACK / 500 s to show nothing leaks',
                'thorough': 'same grid (it is complete for single steps)'},
